@@ -101,14 +101,62 @@ func (w *dirhashWorld) Check(c *core.Case) ([]core.Violation, bool) {
 		}
 	}
 	rec(0)
+	if !exp.Refused {
+		if msg := sharedListing(names, contents); msg != "" {
+			vs = append(vs, core.Violation{Sig: "set:shared-listing", What: msg, Case: c})
+		}
+	}
 	if len(vs) > 3 {
 		vs = vs[:3]
 	}
 	return vs, len(in.Files) >= 2
 }
 
+// sharedListing: two hashes over overlapping views of one listing, the second started while the first is reading
+// its first file (from the open callback, so that the order of events is fixed).  Each must be the documented
+// formula over its own set of names, and the caller's listing must be left as it was.
+func sharedListing(names []string, contents map[string][]byte) string {
+	if len(names) < 3 {
+		return ""
+	}
+	all := append([]string(nil), names...)
+	sort.Sort(sort.Reverse(sort.StringSlice(all))) // a listing that is not sorted
+	all[0], all[len(all)-1] = all[len(all)-1], all[0]
+	before := append([]string(nil), all...)
+	outer, inner := all[:len(all)-1], all[1:]
+	wantOuter := formulaHashSorted(before[:len(before)-1], contents)
+	wantInner := formulaHashSorted(before[1:], contents)
+	var gotInner string
+	var errInner error
+	started := false
+	var open func(n string) (io.ReadCloser, error)
+	open = func(n string) (io.ReadCloser, error) {
+		if !started {
+			started = true
+			gotInner, errInner = dirhash.Hash1(inner, func(n string) (io.ReadCloser, error) { return io.NopCloser(bytes.NewReader(contents[n])), nil })
+		}
+		return io.NopCloser(bytes.NewReader(contents[n])), nil
+	}
+	gotOuter, errOuter := dirhash.Hash1(outer, open)
+	switch {
+	case errOuter != nil || errInner != nil:
+		return fmt.Sprintf("Hash1 over overlapping views of one listing fails: %v / %v", errOuter, errInner)
+	case gotOuter != wantOuter || gotInner != wantInner:
+		return fmt.Sprintf("two hashes over overlapping views %q and %q of one listing, the second started while the first reads its first file: results %s / %s, the documented formula gives %s / %s", before[:len(before)-1], before[1:], gotOuter, gotInner, wantOuter, wantInner)
+	case !core.Eq(all, before):
+		return fmt.Sprintf("Hash1 reordered the caller's listing: %q became %q", before, all)
+	}
+	return ""
+}
+
+func formulaHashSorted(names []string, contents map[string][]byte) string {
+	s := append([]string(nil), names...)
+	sort.Strings(s)
+	return formulaHash(s, func(n string) []byte { return contents[n] })
+}
+
 func (w *dirhashWorld) Record(rng *rand.Rand, n int, emit func(k string, in, obs any)) {
-	pool := []string{"a", "b", "a/b", "a b", "a  b", "B", "é", "h111  a", "a/c", "go.mod", "x/y/z.go", "Z", "aa", "a.b", "a\nb", "\nab", "a\n", "\n", "a%20b", "100%", "%[1]x", "%s", "%v%d", "%"}
+	pool := []string{"a", "b", "a/b", "a b", "a  b", "B", "é", "h111  a", "a/c", "go.mod", "x/y/z.go", "Z", "aa", "a.b", "a\nb", "\nab", "a\n", "\n", "a%20b", "100%", "%[1]x", "%s", "%v%d", "%", "./a", "a//b", "a/../b", "a/", "x/./y"}
 	for i := 0; i < n; i++ {
 		m := 1 + rng.Intn(8)
 		seen := map[string]bool{}
@@ -135,6 +183,7 @@ func (w *dirhashWorld) Record(rng *rand.Rand, n int, emit func(k string, in, obs
 		sorted := append([]string(nil), names...)
 		sort.Strings(sorted)
 		matches := err == nil && got == formulaHash(sorted, func(n string) []byte { return contents[n] })
-		emit("set", map[string]any{"files": files}, map[string]any{"refused": err != nil, "order": concrete.IntsList(sorted), "formula": matches || err != nil})
+		shared := err != nil || sharedListing(names, contents) == ""
+		emit("set", map[string]any{"files": files}, map[string]any{"refused": err != nil, "order": concrete.IntsList(sorted), "formula": (matches && shared) || err != nil})
 	}
 }
